@@ -15,6 +15,9 @@ import Genshi.Model.ParseEnv
         item = ( se name ( ( n v )... ) ) | ( ee name ) | ( cd text ) | ( xd version enc|N standalone )
              | ( dt name sysid|N pubid|N T|F ) | ( ns pfx|N uri|N ) | ( ens pfx|N ) | sc | ec | ( pi t d )
              | ( cm text ) | ( df text line col ) | ( xerr line col ) | ( xenc line col ) | ( raise Name T|F )
+    C07 lower text                            -- `str.lower` (`pyLower`); answer: the string
+    C07 unent text                            -- `stripentities` (`stripReal`); answer: ( ok text ) | ( err Name )
+    C07 qname text                            -- `QName(text)` (`mkQName`); answer: ( ns local )
     Every callback item carries the tokenizer's position as two trailing atoms: ( ST tag attrs line col ) ...
     answer: ( ( ( event line col )... ) ok ) | ( ( ... ) ( parseError line col ) ) | ( ( ... ) ( propagate sName ) )
             | unmodelled
